@@ -127,7 +127,7 @@ func (app *App) handleAdminMessage(msg []byte) ([]byte, error) {
 				switch cmd.Which {
 				case "":
 					err = errBadCommand
-				case "all":
+				case "all", "deleteAll":
 					app.Websocket.Delete <- "deleteAll"
 					// don't lock ourselves out!
 					if app.Opts.API != "" {
